@@ -163,6 +163,12 @@ def run(ctx):
                 text = "[%s]\n%s[Quadlet]\n%s=%s\n" % (sec, docs.MINIMAL[typ], k, val)
                 path = "/d/q%d.%s" % (len(cases), typ)
                 cases.append(case_line("convert", "0", path, text)); meta.append((typ, k, path, "quadlet"))
+            # next to the documented [Quadlet] key, whatever its value (the check must not depend on what DefaultDependencies says)
+            for dd in ["no", "false", "0", "off", "yes", ""]:
+                for text in ("[%s]\n%s[Quadlet]\nDefaultDependencies=%s\n%s=x\n" % (sec, docs.MINIMAL[typ], dd, k),
+                             "[Quadlet]\n%s=x\nDefaultDependencies=%s\n[%s]\n%s" % (k, dd, sec, docs.MINIMAL[typ])):
+                    path = "/d/q%d.%s" % (len(cases), typ)
+                    cases.append(case_line("convert", "0", path, text)); meta.append((typ, k, path, "quadlet"))
     impl = vlib.run_impl(cases)
     model = vlib.run_model(cases) if ctx.model_ok else None
     mism = 0
